@@ -127,13 +127,16 @@ theorem reduce128_spec (h l : BitVec 64) :
   -- the call structure: shift, subtract the top 32 bits, add (low 32 bits of c_h)·(2^32-1), shift back
   have e : ∃ m, (m.toNat = h.toNat % 4294967296 * 4294967295) ∧ L2.bin reduce_avx_128_64 h l =
       L2.un shift_avx (L2.bin add_avx_s_b_small (L2.bin sub_avx_s_b_small (L2.un shift_avx l) (h >>> 32)) m) := by
+    -- (`refine … ?_; …; done` inside `first`: an error in a nested `by` of `exact ⟨…⟩` would not make `first` backtrack)
     first
-      | exact ⟨mul32 h 4294967295#64, mul32_Pn_toNat h, by
-          unfold L2.bin
-          simp only [reduce_avx_128_64, shift_get, sub_s_b_small_get, add_s_b_small_get, lane_get]⟩
-      | exact ⟨mul32 4294967295#64 h, Pn_mul32_toNat h, by
-          unfold L2.bin
-          simp only [reduce_avx_128_64, shift_get, sub_s_b_small_get, add_s_b_small_get, lane_get]⟩
+      | (refine ⟨mul32 h 4294967295#64, mul32_Pn_toNat h, ?_⟩
+         unfold L2.bin
+         simp only [reduce_avx_128_64, shift_get, sub_s_b_small_get, add_s_b_small_get, lane_get]
+         done)
+      | (refine ⟨mul32 4294967295#64 h, Pn_mul32_toNat h, ?_⟩
+         unfold L2.bin
+         simp only [reduce_avx_128_64, shift_get, sub_s_b_small_get, add_s_b_small_get, lane_get]
+         done)
   obtain ⟨m, hm, e⟩ := e
   rw [e, shift_spec]
   have hh := h.isLt
@@ -191,12 +194,14 @@ theorem reduce96_lane_spec (hv lv : BitVec 64) :
   have e : ∃ m, (m.toNat = hv.toNat % 4294967296 * 4294967295) ∧
       L2.bin reduce_avx_96_64 hv lv = L2.bin add_avx_b_small lv m := by
     first
-      | exact ⟨mul32 hv 4294967295#64, mul32_Pn_toNat hv, by
-          unfold L2.bin
-          simp only [reduce_avx_96_64, add_b_small_get, lane_get]⟩
-      | exact ⟨mul32 4294967295#64 hv, Pn_mul32_toNat hv, by
-          unfold L2.bin
-          simp only [reduce_avx_96_64, add_b_small_get, lane_get]⟩
+      | (refine ⟨mul32 hv 4294967295#64, mul32_Pn_toNat hv, ?_⟩
+         unfold L2.bin
+         simp only [reduce_avx_96_64, add_b_small_get, lane_get]
+         done)
+      | (refine ⟨mul32 4294967295#64 hv, Pn_mul32_toNat hv, ?_⟩
+         unfold L2.bin
+         simp only [reduce_avx_96_64, add_b_small_get, lane_get]
+         done)
   obtain ⟨m, hm, e⟩ := e
   have b2 : m.toNat ≤ 18446744069414584320 := by
     rw [hm]
